@@ -498,7 +498,8 @@ def perturbations(r, v, depth=0, limit=40):
                     for pv in perturbations(r, v[i], depth + 1, limit=6):
                         out.append(v[:i] + [pv] + v[i + 1:])
     elif isinstance(v, dict):
-        out += [{**v, r.choice(["new", 77, None]): 1}, None, list(v.items())]
+        out += [{**v, r.choice(["new", 77, None]): 1}, None, list(v.items()),
+                {**v, "new": 1, 77: 2, None: 3, (1, 2): 4, b"k": 5}]
         for k in list(v):
             w = dict(v)
             del w[k]
@@ -537,6 +538,28 @@ def replace_at(v, pos, new):
     w[pos[0]] = replace_at(v[pos[0]], pos[1:], new)
     return w
 
+
+# every leaf type with every combination of props that matters for type guards
+LEAF_SCHEMAS = [
+    "schema.none", "schema.bool", "schema.bool(True)", "schema.int", "schema.int(5)", "schema.int.min(1)",
+    "schema.int.max(9)", "schema.int.min(1).max(9)", "schema.int(True)", "schema.float", "schema.float(1.5)",
+    "schema.float.min(0.5)", "schema.float.max(9.5)", "schema.float(1.5).precision(2)",
+    "schema.float.precision(3)", "schema.float(1e300).precision(15)", "schema.float(float('inf'))",
+    "schema.float(float('nan')).precision(1)", "schema.float(float('inf')).precision(2)",
+    "schema.float.min(0.5).max(1.5).precision(1)", "schema.str", "schema.str('ab')", "schema.str.len(2)",
+    "schema.str.len(1, ...)", "schema.str.len(..., 3)", "schema.str.len(1, 3)", "schema.str.alphabet('ab')",
+    "schema.str.contains('a')", "schema.str.regex('a+')", "schema.str.alphabet('ab').contains('a').len(1, 3)",
+    "schema.bytes", "schema.bytes(b'ab')", "schema.uuid4", f"schema.uuid4({vsrc(UUIDS[0])})",
+    "schema.datetime", f"schema.datetime({vsrc(DATETIMES[0])})", f"schema.datetime({vsrc(DATETIMES[2])})",
+    "schema.date", f"schema.date({vsrc(DATES[0])})", "schema.list", "schema.list.len(1)", "schema.list.len(1, ...)",
+    "schema.list.len(..., 2)", "schema.list(schema.int)", "schema.list(schema.int).len(2)",
+    "schema.list([schema.int])", "schema.list([schema.int, ...])", "schema.list([..., schema.int])",
+    "schema.list([..., schema.int, ...])", "schema.list([...])", "schema.list([])", "schema.dict", "schema.dict({})",
+    "schema.dict({'a': schema.int})", "schema.dict({optional('a'): schema.int})",
+    "schema.dict({'a': schema.int, ...: ...})", "schema.dict({...: ...})", "schema.any",
+    "schema.any(schema.int, schema.str)", "schema.alias('A', schema.int)",
+    "schema.dict({'a': schema.dict({'b': schema.list(schema.float(1.0).precision(1))})})",
+]
 
 UNRELATED = [None, True, 0, 1, -1, 1.5, "", "a", b"a", [], [1], {}, {"a": 1}, UUIDS[0], DATETIMES[0],
              DATES[0], [None], {"a": None}, 2 ** 70, math.nan]
